@@ -614,6 +614,42 @@ func taskConsts(repo string) ([]string, error) {
 	return out, nil
 }
 
+// storeConsts lists the string constants of shovel/web/web.go and
+// shovel/config/config.go that mention shovel.sources or shovel.integrations:
+// the dashboard stores and the loader reads with constant text, parameters only.
+func storeConsts(repo string) ([]string, error) {
+	var out []string
+	for _, rel := range []string{"shovel/web/web.go", "shovel/config/config.go"} {
+		f, err := parse(repo, rel)
+		if err != nil {
+			return nil, err
+		}
+		ast.Inspect(f.f, func(n ast.Node) bool {
+			gd, ok := n.(*ast.GenDecl)
+			if !ok || gd.Tok != token.CONST {
+				return true
+			}
+			for _, sp := range gd.Specs {
+				vs := sp.(*ast.ValueSpec)
+				for _, v := range vs.Values {
+					if bl, ok := v.(*ast.BasicLit); ok && bl.Kind == token.STRING {
+						if t, err := strconv.Unquote(bl.Value); err == nil &&
+							(strings.Contains(t, "shovel.sources") || strings.Contains(t, "shovel.integrations")) {
+							out = append(out, strings.TrimSpace(strings.TrimSuffix(squash(t), ";")))
+						}
+					}
+				}
+			}
+			return true
+		})
+	}
+	if len(out) == 0 {
+		return nil, shape("no constant statement on shovel.sources / shovel.integrations found")
+	}
+	sort.Strings(out)
+	return out, nil
+}
+
 func reservedWords(repo string) ([]string, error) {
 	f, err := parse(repo, "wpg/reserved_words.go")
 	if err != nil {
@@ -847,6 +883,10 @@ func UserInputChecks(repo string) (string, error) {
 	if err != nil {
 		return "", err
 	}
+	scs, err := storeConsts(repo)
+	if err != nil {
+		return "", err
+	}
 	var b strings.Builder
 	b.WriteString("(* GENERATED by harness/config/translate from shovel/config/config.go, wpg/pg.go,\n   wpg/reserved_words.go, dig/dig.go, shovel/task.go, shovel/web/web.go.  Do not edit. *)\n")
 	b.WriteString("From Coq Require Import List String.\nImport ListNotations.\nOpen Scope string_scope.\n\n")
@@ -880,6 +920,7 @@ func UserInputChecks(repo string) (string, error) {
 	}
 	b.WriteString("].\n\nDefinition reserved : list string :=\n  " + clist(res) + ".\n")
 	b.WriteString("\n(* constant statements of shovel/task.go on shovel.task_updates (white space squashed) *)\nDefinition task_consts : list string :=\n  " + clist(tcs) + ".\n")
+	b.WriteString("\n(* constant statements of web.go / config.go on shovel.sources and shovel.integrations *)\nDefinition store_consts : list string :=\n  " + clist(scs) + ".\n")
 	return b.String(), nil
 }
 
